@@ -18,8 +18,8 @@ import (
 // One operation on the real RawMessageFilter + real State.
 type fop struct {
 	Recv  bool   `json:"recv"`
-	H     uint64 `json:"h"`              // height of the message / height to advance to
-	Kind  int    `json:"kind,omitempty"` // 0 peer of this instance, 1 sent by this node, 2 other instance
+	H     uint64 `json:"h"`               // height of the message / height to advance to
+	Kind  int    `json:"kind,omitempty"`  // 0 peer of this instance, 1 sent by this node, 2 other instance
 	Reent bool   `json:"reent,omitempty"` // delivering this message makes the handler start the next height (a commit during consumption)
 }
 
@@ -63,8 +63,8 @@ type frun struct {
 	msgs     []*fmsg
 	viol     string
 	rule     string
-	inRecv   int  // id of the message being received (0: none)
-	starting uint64 // height being started (ConsumeCacheMessages in progress), 0: none
+	inRecv   int             // id of the message being received (0: none)
+	starting uint64          // height being started (ConsumeCacheMessages in progress), 0: none
 	ended    map[uint64]bool // heights that ended while their batch was being consumed
 	lastIdx  map[uint64]int
 	delivs   int
@@ -318,15 +318,15 @@ func CheckC17Unit(run *harness.Run) ([]harness.Finding, map[string]interface{}, 
 		}
 	}
 	cov := map[string]interface{}{
-		"evaluations":         seqs,
-		"distinct_nontrivial": nontrivial,
-		"rule":                fmt.Sprintf("operation sequences on the real RawMessageFilter + State with recording handlers per term: every sequence of length <= %d over a 13-letter alphabet (receive a peer message of height 1..4, the same with a handler that starts the next height while the batch is consumed, advance to height 1..3, a message of this node, messages of another instance), plus random sequences of length 5..200 over growing heights; non-trivial = at least one delivery observed; distinct by construction (enumeration / PRNG stream)", maxLen),
-		"samples":             samples,
-		"exhaustive":          true,
+		"evaluations":          seqs,
+		"distinct_nontrivial":  nontrivial,
+		"rule":                 fmt.Sprintf("operation sequences on the real RawMessageFilter + State with recording handlers per term: every sequence of length <= %d over a 13-letter alphabet (receive a peer message of height 1..4, the same with a handler that starts the next height while the batch is consumed, advance to height 1..3, a message of this node, messages of another instance), plus random sequences of length 5..200 over growing heights; non-trivial = at least one delivery observed; distinct by construction (enumeration / PRNG stream)", maxLen),
+		"samples":              samples,
+		"exhaustive":           true,
 		"exhaustive_sequences": exhaustiveSeqs,
-		"deliveries_judged":   delivs,
+		"deliveries_judged":    delivs,
 		"cached_messages_evicted_by_a_later_higher_height_(not_judged_for_loss)": evicted,
-		"violations_by_rule":  byRule,
+		"violations_by_rule": byRule,
 	}
 	fmt.Printf("C17 %s (filter level): sequences=%d (exhaustive %d) deliveries judged=%d\n", run.Tier, seqs, exhaustiveSeqs, delivs)
 	return findings, cov, nil
